@@ -743,8 +743,8 @@ class Engine:
         ty = t["ty"]
         if not pl["p"]:
             lty = self.fn.locals[pl["l"]]["ty"]
-            if ty.get("k") == "param" and lty.get("k") in ("closure", "fndef"):
-                ty = lty
+            if ty.get("k") == "param" and lty.get("k") not in ("param", None, "other"):
+                ty = lty    # the inliner retyped this parameter with the type of the actual argument
         e = self.bi.place(pl, val)
         evs = self.drop_events(b, ty, e, t)
         pre = st
